@@ -1,8 +1,9 @@
 import re
 from copy import deepcopy
-from xml.sax.saxutils import escape
+from xml.sax.saxutils import escape, quoteattr
 
 from bs4 import BeautifulSoup, NavigableString
+from bs4.formatter import XMLFormatter
 
 from ..base import (
     BaseReader, BaseWriter, CaptionSet, CaptionList, Caption, CaptionNode,
@@ -309,6 +310,19 @@ class DFXPReader(BaseReader):
         return attrs
 
 
+class DFXPOutputFormatter(XMLFormatter):
+    """Serializes the document the writers build: text nodes are written as
+    they are (the content of a <p> is hand-assembled, already escaped markup),
+    attribute values are escaped.
+    """
+
+    def __init__(self):
+        super().__init__(entity_substitution=None)
+
+    def attribute_value(self, value):
+        return escape(value)
+
+
 class DFXPWriter(BaseWriter):
     def __init__(self, *args, **kwargs):
         self.write_inline_positioning = kwargs.pop(
@@ -380,7 +394,7 @@ class DFXPWriter(BaseWriter):
 
             body.append(div)
         self.region_creator.cleanup_regions()
-        caption_content = dfxp.prettify(formatter=None)
+        caption_content = dfxp.prettify(formatter=DFXPOutputFormatter())
         return caption_content
 
     @staticmethod
@@ -467,7 +481,7 @@ class DFXPWriter(BaseWriter):
 
             content_with_style = _recreate_style(node.content, dfxp)
             for style, value in list(content_with_style.items()):
-                styles += f' {style}="{value}"'
+                styles += f' {style}={quoteattr(value)}'
             if node.layout_info:
                 region_id, region_attribs = (
                     self.region_creator.get_positioning_info(
